@@ -787,4 +787,61 @@ theorem cri_garbage (l : List Byte) (c : Byte) (t : List Byte) (f sk : Bool) (e 
       rw [← hr.1, hc] at this; cases this
 
 
+/-! ### entity references -/
+theorem getChar_good (l : List Byte) (c : Byte) (t : List Byte) (hc : isSpace c = false) :
+    IStream.getChar { left := l, right := c :: t, eof := false, fail := false, bad := false, skipws := true } =
+      (some c, { left := c :: l, right := t, eof := false, fail := false, bad := false, skipws := true }) := by
+  simp [IStream.getChar, IStream.sentry, IStream.good, dropSpaces_nonspace _ _ _ hc]
+
+theorem extractInt32_blank (l spx : List Byte) (hsp : spx.all isSpace = true) :
+    IStream.extractInt32 { left := l, right := spx, eof := false, fail := false, bad := false, skipws := true } =
+      (none, { left := spx.reverse ++ l, right := [], eof := true, fail := true, bad := false, skipws := true }) := by
+  have := dropSpaces_append spx l [] hsp
+  simp only [List.append_nil] at this
+  simp [IStream.extractInt32, IStream.sentry, IStream.good, this, dropSpaces]
+
+theorem extractInt32_skip (l spx : List Byte) (c : Byte) (t : List Byte) (hsp : spx.all isSpace = true) (hc : isSpace c = false) :
+    IStream.extractInt32 { left := l, right := spx ++ c :: t, eof := false, fail := false, bad := false, skipws := true } =
+      (some (if (scanInt longMin longMax (spx.reverse ++ l) (c :: t)).1.value < intMin then intMin
+             else if (scanInt longMin longMax (spx.reverse ++ l) (c :: t)).1.value > intMax then intMax
+             else (scanInt longMin longMax (spx.reverse ++ l) (c :: t)).1.value),
+       { left := (scanInt longMin longMax (spx.reverse ++ l) (c :: t)).2.1,
+         right := (scanInt longMin longMax (spx.reverse ++ l) (c :: t)).2.2,
+         eof := (scanInt longMin longMax (spx.reverse ++ l) (c :: t)).2.2.isEmpty,
+         fail := (if (scanInt longMin longMax (spx.reverse ++ l) (c :: t)).1.value < intMin then true
+             else if (scanInt longMin longMax (spx.reverse ++ l) (c :: t)).1.value > intMax then true
+             else (scanInt longMin longMax (spx.reverse ++ l) (c :: t)).1.fail),
+         bad := false, skipws := true }) := by
+  simp only [IStream.extractInt32, IStream.sentry, IStream.good, dropSpaces_append _ _ _ hsp, dropSpaces_nonspace _ _ _ hc]
+  simp
+  split <;> (try split) <;> simp_all
+  rename_i h1 h2
+  have a : decide ((scanInt longMin longMax (spx.reverse ++ l) (c :: t)).fst.value < intMin) = false := by
+    simp; omega
+  have b : decide (intMax < (scanInt longMin longMax (spx.reverse ++ l) (c :: t)).fst.value) = false := by
+    simp; omega
+  simp [a, b]
+
+theorem greater_mono_err (e s : Sev) (h : ¬ NoErr e) : ¬ NoErr (e.greater s) := by
+  cases e <;> cases s <;> simp_all [NoErr, Sev.greater, Sev.toInt]
+
+/-- an error found before the id is never lost by the rest of `ReadEntityRef` -/
+theorem refTail_mono (lookup : Int → RefLookup) (s2 : IStream) (err0 : Sev) (h : ¬ NoErr err0) :
+    ¬ NoErr (refTail lookup (some attrDelims) s2 err0).2.2 := by
+  unfold refTail
+  simp only
+  split
+  · rcases cri_mono (s2.extractInt32).2 (err0.greater Sev.warning) with hm | hm
+    · rw [hm]; exact greater_warning_err _
+    · exact hm
+  · have key : ¬ NoErr (checkRemainingInput (some attrDelims) (s2.extractInt32).2 err0).2 := by
+      rcases cri_mono (s2.extractInt32).2 err0 with hm | hm
+      · rw [hm]; exact h
+      · exact hm
+    split
+    · exact key
+    · exact greater_warning_err _
+    · exact greater_warning_err _
+
+
 end StepModel.P21.Lemmas
